@@ -10,7 +10,7 @@
 4. spec/RuntimeTrace.tla validates the recorded executions against the mechanism model (L2):
    a rejected trace is reported as model drift in the evidence, not as a violation.
 """
-import json, os, re, sys, time, concurrent.futures as cf
+import itertools, json, os, re, sys, time, concurrent.futures as cf
 import common
 from common import Check, tlc, WORK, ToolError
 import scn, families
@@ -41,6 +41,9 @@ MC_INVARIANTS = {
 CODE_DEFECTS = json.load(open(os.path.join(common.VERIF, "spec", "code_defects.json")))["defects"]
 
 
+_JOB = itertools.count()
+
+
 def write_cfg(path, invariants, properties=()):
     with open(path, "w") as f:
         f.write("SPECIFICATION Spec\nCONSTANTS\n  NW <- MC_NW\n  Scripts <- MC_Scripts\n  MaxTick <- MC_MaxTick\n"
@@ -54,7 +57,8 @@ def write_cfg(path, invariants, properties=()):
 
 def model_check(s, prop, workers=4, timeout=900):
     """Exhaustive TLC run of one scenario; returns (TlcResult, expected-or-None)."""
-    tag = "%s_%d" % (s["name"], os.getpid())
+    # (unique per job: the select cases carry the same name for every worker count)
+    tag = "%s_nw%s_%d_%d" % (s["name"], s.get("nw"), os.getpid(), next(_JOB))
     sfile = os.path.join(WORK, "scn_%s.json" % tag)
     efile = os.path.join(WORK, "exp_%s.json" % tag)
     json.dump(dict(s, defects=list(s.get("defects", []))), open(sfile, "w"))
@@ -266,7 +270,7 @@ def run(prop, tier, check=None):
                 # too large for this tier's budget: the scenario is still run on the real code below
                 check.cov.setdefault("model_check_timeouts", []).append(s["name"])
                 continue
-            check.add_tlc("mc:" + s["name"], res)
+            check.add_tlc("mc:" + s["name"] + ("" if re.search(r"_w\d+$", s["name"]) else "_w%s" % s.get("nw")), res)
             if getattr(res, "expected_outcome", None) is not None:
                 s["expected_outcome"] = res.expected_outcome
             if prop == "C06" and getattr(res, "expected_results", None) and not s.get("has_refs"):
